@@ -171,7 +171,9 @@ class CacheStore(object):
                 raise
 
         with fd:
-            if not self._cache_is_valid(store_filename, filename):
+            # Check the file we actually opened: the entry at this path may
+            # have been replaced by another scanner process in the meantime.
+            if not self._cache_is_valid(fd.fileno(), filename):
                 return None
             try:
                 data = pickle.load(fd)
